@@ -13,7 +13,7 @@ FREE_TAGS = PROP_TAGS + ["div", "span", "p", "a", "br", "img", "hr", "meta", "li
                          "x-custom", "svg:rect", "a1", "t_t", "x.y", "li", "td", "b"]
 ATTR_NAMES = ["type", "value", "name", "id", "class_", "for_", "for", "checked", "selected", "tabindex", "title", "style",
               "data-x", "x:y", "alt", "href", "a_", "a", "a__", "zz", "b1", "placeholder"]
-TYPE_VALUES = ["text", "hidden", "submit", "checkbox", "radio", "password", "file", "image", "", "TEXT", "email"]
+TYPE_VALUES = ["text", "hidden", "submit", "checkbox", "radio", "password", "file", "image", "", "TEXT", "email", "CHECKBOX", "Radio"]
 OPTION_KEYS = ["auto_name", "auto_value", "auto_domid", "auto_for", "auto_tabindex", "auto_filter"]
 TROOL_TEXT = ["on", "off", "auto", "ON", "yes", "no", "1", "0", "true", "false", "t", "nil", "maybe?", ""]
 GENERATED = {"name", "value", "id", "for", "tabindex", "checked", "selected"}
